@@ -3,6 +3,8 @@ scenario with hooks on, computes the numeric atoms against the independent dense
 the hook events onto the vocabulary of SVRunTrace.tla."""
 from __future__ import annotations
 
+import os
+
 from typing import Any
 
 import numpy as np
@@ -223,9 +225,21 @@ def sv_worker(job: dict) -> dict:
                             scale = hnorm if tg == "energy" else hnorm**2
                         ob = 2.0 * scale * budget + 1e-9 * max(1.0, scale)
                         err = float(np.max(np.abs(got - exp)))
+                        if tg.startswith("energy") and err > ob and H_k is not None:
+                            # a step that straddles the end of the SLM mask may be represented by either interaction matrix
+                            # (both are discretisations of the step function); the generator handed to the energy observables
+                            # need not be the one the stepper picked
+                            s_ = max(k - 1, 0)
+                            for c_ in allowed_mats(s_):
+                                h_alt = dense.hamiltonian(om[s_], de[s_], ph[s_], c_, kind="rydberg", dim=2)
+                                e_alt = _obs_ref(tg, ref, n, h_alt, lind)
+                                # the alternative matrix comes from the raw register coordinates (Pulser rounds them: ~1e-7 relative)
+                                err = min(err, max(0.0, float(np.max(np.abs(got - e_alt))) - 2e-6 * scale))
                         worst_obs = max(worst_obs, err / ob)
                         if err > ob:
                             obs_ok = False
+                            if os.environ.get("VERIF_DEBUG"):
+                                print("DEBUG obs", tg, k, "got", got, "exp", exp, "err", err, "ob", ob)
                 # whether the RIGHT observables are stored at this time is C14's subject; here due := stored
                 trace.append({"ev": "obs", "k": k, "due": bool(stored_tags), "stored": bool(stored_tags), "stateOK": state_ok, "obsOK": obs_ok, "physOK": phys_ok})
             elif e["ev"] == "sv_ret":
